@@ -260,7 +260,7 @@ func genHistory(t *rapid.T) History {
 
 func TestHistory(t *testing.T) {
 	pbt.Run(t, pbt.Sub[History]{
-		Name: "history", Quick: 24000, Thorough: 600000,
+		Name: "history", Quick: 24000, Thorough: 400000,
 		Gen: genHistory, Check: checkHistory,
 		EnumDesc: "for each of the 12 fixed template instances and each transaction shape: every byte position overwritten in place with 00 / 4c / 6a / ff / value+1 and then restored (three inspections of one object); cut to every length and restored into the same array; each instance replaced by each other instance (same array and new array); the P2PKH instance grown into an inscription by Append* calls and cut back to 25 bytes",
 		Enum: func(tier string, yield func(History)) {
